@@ -90,7 +90,7 @@ pub fn checks() -> Vec<Check> {
             sc("vec-subscription-corner-cases", 1, sc_vec_incr_after_done),
             sc("hash-map-subscription-corner-cases", 1, sc_map_incr_after_done),
         ],
-        quick: (20_000, 50),
+        quick: (30_000, 50),
         thorough: (300_000, 600),
         rule: "each evaluation is one seeded run: one collection type, drawn initial contents, 3..40 steps (operations over the full mutating API incl. no-op cases, \
 subscriptions in snapshot/incremental mode consumed by local mirrors, mirrors 1-2 connections away, mirrors re-subscribed from mirrors and hand-consumed event streams, \
